@@ -34,6 +34,10 @@ JudgeObj(e) ==
 Judge(e) == CASE e.ev = "auth_edge" -> JudgeEdge(e)
               [] e.ev = "auth_obj_edge" -> JudgeObj(e)
               [] e.ev = "auth_unreachable" -> [ M_source_state_reachable |-> Must(FALSE) ]
+              \* migrate entry points (beyond the listed properties): only the chain-level admin, only to the contract's own
+              \* code, only to a newer version; a refused migration changes nothing
+              [] e.ev = "auth_migrate" -> [ S_migration_needs_admin_own_code_newer_version |-> Must(e.ok = (e.by_admin /\ e.c = e.code /\ e.newer)),
+                                            S_refused_migration_changes_nothing |-> G(~e.ok, e.digest_same) ]
               [] e.ev = "reset" -> NoGuards
 Init == l = 1 /\ cnt = NoGuards
 Step == /\ l <= Len(Rec)
